@@ -291,6 +291,17 @@ def fo_args(S, *, ident=True, wide=True):
         for l1, l2 in itertools.permutations(l3, 2):
             for q in q1:
                 add(arg(A, (l1, l2, q)))
+        if ident:
+            # an identity beside two predications (substitution order / blocking shapes)
+            idents = [Predicated(IDENT, (a, b)), Predicated(IDENT, (b, a))]
+            l4 = lits[:4] if small_mode else lits
+            for idn in idents:
+                for l1, l2 in itertools.permutations(l4, 2):
+                    for r in (lits[1], lits[3]) if small_mode else lits[:4]:
+                        for pos in (0, 2):
+                            prem = [l1, l2]
+                            prem.insert(pos, idn)
+                            add(arg(r, prem))
     return out
 
 def fo_modal_args():
